@@ -2,7 +2,7 @@
 From Coq Require Import ZifyBool.
 From Vx Require Import base.Prelude base.ListX model.ParserTypes gen.GenParser model.Parser
   model.Vt500Spec proofs.ParserTable proofs.ParserConform
-  model.Mouse model.Input proofs.ParserLife.
+  model.Mouse gen.GenInput model.Input proofs.ParserLife.
 
 (* ================= A. what the parser can deliver is well formed ================= *)
 
@@ -1650,3 +1650,280 @@ Example sgr_bytes_example :
   dval [50; 48] = sgr_cb 0 true false true false /\ dval [49; 48] = 9 + 1 /\ dval [53] = 4 + 1 /\
   button_ok 0 = true.
 Proof. repeat split; reflexivity. Qed.
+
+(* ================= F. the request side of the cursor-position hand-off: schedules ================= *)
+(* no emit for a caller of CursorPosition outside the CSI .. R branch *)
+Section CursorRequest.
+Variable dec : item -> ikey.
+Variable b64 : list Z -> option (list Z).
+
+Definition emits_of (o : outcome) : list emit := match o with Ok _ es | Panic es | Blocks es => es end.
+Definition nocur (o : outcome) : Prop := cursors_of (emits_of o) = [].
+
+Lemma cursors_of_app a b : cursors_of (a ++ b) = cursors_of a ++ cursors_of b.
+Proof. unfold cursors_of. apply flat_map_app. Qed.
+
+Lemma nocur_ret s : nocur (ret s).
+Proof. reflexivity. Qed.
+Lemma nocur_post e s : nocur (post e s).
+Proof. unfold nocur, post. destruct (q_stalled s) as [n|]; [destruct (0 <? n)|]; reflexivity. Qed.
+Lemma nocur_try_post e s : nocur (try_post e s).
+Proof. unfold nocur, try_post. destruct (q_stalled s) as [n|]; [destruct (0 <? n)|]; reflexivity. Qed.
+Lemma nocur_post_key it s : nocur (post_key dec it s).
+Proof. apply nocur_post. Qed.
+Lemma nocur_send_size_done s : nocur (send_size_done s).
+Proof. unfold nocur, send_size_done. destruct (size_done s <? 1); reflexivity. Qed.
+Lemma nocur_send_clip v s : nocur (send_clip v s).
+Proof. unfold nocur, send_clip. destruct (w_clip s); reflexivity. Qed.
+Lemma nocur_panic : nocur (Panic []).
+Proof. reflexivity. Qed.
+Lemma nocur_bind o f : nocur o -> (forall s1, nocur (f s1)) -> nocur (bind o f).
+Proof.
+  intros Ho Hf. destruct o as [s1 es1|es1|es1]; cbn [bind]; try exact Ho.
+  specialize (Hf s1). unfold nocur in *. destruct (f s1); cbn [emits_of] in *;
+    rewrite cursors_of_app, Ho, Hf; reflexivity.
+Qed.
+Lemma nocur_need {A} (o : option A) f : (forall x, nocur (f x)) -> nocur (need o f).
+Proof. intros H. destruct o; [apply H|reflexivity]. Qed.
+
+Lemma nocur_da1 ps : forall s, nocur (da1_loop ps s).
+Proof.
+  induction ps as [|p t IH]; intros s; cbn [da1_loop]; [apply nocur_ret|].
+  apply nocur_need. intros v. apply nocur_bind; [destruct (v =? 4); [apply nocur_post|apply nocur_ret]|exact IH].
+Qed.
+
+Ltac nleaf :=
+  first [ apply nocur_ret | apply nocur_post | apply nocur_try_post | apply nocur_post_key
+        | apply nocur_send_size_done | apply nocur_send_clip | apply nocur_da1 | apply nocur_panic ].
+Ltac ncrush :=
+  repeat first
+    [ nleaf
+    | match goal with
+      | |- nocur (bind _ _) => apply nocur_bind; [|intros ?; cbv beta]
+      | |- nocur (need _ _) => apply nocur_need; intros ?; cbv beta
+      | |- nocur (if ?c then _ else _) => destruct c eqn:?
+      | |- nocur (match ?c with _ => _ end) => destruct c eqn:?
+      end ].
+
+Lemma nocur_csi inter ps fin s : (fin =? 82) = false -> nocur (handle_csi dec inter ps fin s).
+Proof.
+  intros H. unfold handle_csi, decrpm, decrpm_gen. rewrite H. cbv beta zeta iota. ncrush.
+Qed.
+
+Lemma nocur_dcs fin inter ps data s : nocur (handle_dcs fin inter ps data s).
+Proof. unfold handle_dcs. ncrush. Qed.
+
+Lemma nocur_osc payload s : nocur (handle_osc b64 payload s).
+Proof. unfold handle_osc, osc_color. cbv zeta. ncrush. Qed.
+
+Lemma nocur_handle s it : is_cpr it = false -> nocur (handle dec b64 s it).
+Proof.
+  intros H. destruct it; cbn [handle];
+    first [ nleaf | apply nocur_csi; exact H | apply nocur_dcs | apply nocur_osc | ncrush ].
+Qed.
+
+(* what one delivered sequence hands to the caller of CursorPosition, and whether the caller is
+   still waiting afterwards *)
+Definition answer_spec (req w : bool) (it : item) : list (Z * Z) * bool :=
+  if is_cpr it && req then
+    match cpr_answer it with
+    | Some rc => (if w then [rc] else [], false)
+    | None => ([], w)
+    end
+  else ([], w).
+
+Lemma handle_cpr inter ps s s1 es1 :
+  handle dec b64 s (ICsi inter ps 82) = Ok s1 es1 ->
+  (cursors_of es1, w_cursor s1) = answer_spec (req_cursor s) (w_cursor s) (ICsi inter ps 82).
+Proof.
+  unfold answer_spec. cbn [handle is_cpr]. unfold handle_csi. cbv zeta.
+  change (82 =? 99) with false. change (82 =? 73) with false. change (82 =? 79) with false.
+  change (82 =? 82) with true. cbv iota. cbn [andb].
+  destruct (req_cursor s) eqn:Er.
+  2:{ unfold post_key, post. intros E.
+      destruct (q_stalled s) as [n|]; [destruct (0 <? n)|]; try discriminate;
+        injection E as <- <-; reflexivity. }
+  destruct ps as [|p0 [|p1 [|p2 t]]].
+  - cbn. intros E. injection E as <- <-. reflexivity.
+  - cbn. intros E. injection E as <- <-. destruct p0; reflexivity.
+  - destruct p0 as [|r p0']; [cbn; discriminate|]. destruct p1 as [|c p1']; [cbn; discriminate|].
+    cbn. unfold send_cursor. cbn. destruct (w_cursor s) eqn:Ew; intros E; injection E as <- <-; cbn; rewrite ?Ew; reflexivity.
+  - assert (Hz : (zlen (p0 :: p1 :: p2 :: t) =? 2) = false).
+    { rewrite !zlen_cons. pose proof (zlen_nonneg t). lia. }
+    rewrite Hz. cbn [negb]. intros E. injection E as <- <-.
+    destruct p0 as [|r p0']; [reflexivity|]. destruct p1 as [|c p1']; reflexivity.
+Qed.
+
+Lemma handle_answers s it s1 es1 : wf it -> handle dec b64 s it = Ok s1 es1 ->
+  (cursors_of es1, w_cursor s1) = answer_spec (req_cursor s) (w_cursor s) it.
+Proof.
+  intros Hwf E. destruct (is_cpr it) eqn:Hc.
+  - destruct it; try discriminate. cbn [is_cpr] in Hc. apply Z.eqb_eq in Hc. subst. exact (handle_cpr _ _ _ _ _ E).
+  - unfold answer_spec. rewrite Hc. cbn [andb].
+    pose proof (nocur_handle s it Hc) as Hn. unfold nocur in Hn. rewrite E in Hn. cbn [emits_of] in Hn. rewrite Hn.
+    destruct (handle_exact dec b64 s it Hwf s1 es1 E) as [F _].
+    destruct (fr_wcur _ _ _ F) as [H|H]; [rewrite H; reflexivity|].
+    destruct it; cbn in H, Hc; congruence.
+Qed.
+
+(* classification of everything that is not CSI .. R does not look at the request *)
+Lemma classify_noncpr r1 r2 it : is_cpr it = false ->
+  classify r1 it = classify r2 it /\ classify r1 it <> UCursorReply.
+Proof.
+  intros H. destruct it; cbn [classify]; try (split; [reflexivity|discriminate]).
+  cbn [is_cpr] in H. rewrite H. cbn [andb]. split; [reflexivity|].
+  repeat match goal with |- context [if ?c then _ else _] => destruct c end; try discriminate.
+  all: destruct (spec_mouse inter ps final); discriminate.
+Qed.
+
+Lemma spec_item_noncpr p r1 r2 it : is_cpr it = false ->
+  spec_item dec p r1 it = (let '(es, p', _) := spec_item dec p r2 it in (es, p', r1)).
+Proof.
+  intros H. destruct (classify_noncpr r1 r2 it H) as [Hc Hn]. unfold spec_item. rewrite <- Hc.
+  destruct (classify r1 it); try reflexivity. contradiction.
+Qed.
+
+Lemma classify_cpr_iff req it : classify req it = UCursorReply -> is_cpr it && req = true.
+Proof.
+  destruct it; cbn [classify is_cpr]; try discriminate.
+  destruct ((final =? 82) && req) eqn:E; [reflexivity|].
+  repeat match goal with |- context [if ?c then _ else _] => destruct c end; try discriminate.
+  all: destruct (spec_mouse inter ps final); discriminate.
+Qed.
+
+Lemma spec_item_req p req it : snd (spec_item dec p req it) = req && negb (is_cpr it).
+Proof.
+  unfold spec_item. destruct (classify req it) eqn:Ec; cbn [snd];
+    try (destruct (is_cpr it) eqn:Hc; [|rewrite andb_true_r; reflexivity];
+         destruct req; [|reflexivity];
+         destruct it; try discriminate; cbn [classify is_cpr] in *; rewrite Hc in Ec; cbn [andb] in Ec; discriminate).
+  apply classify_cpr_iff in Ec. apply andb_prop in Ec as [-> ->]. reflexivity.
+Qed.
+
+
+(* THE order obligation on CursorPosition, over its translated body: the request flag is armed
+   before the query is written *)
+Lemma cursor_prog_order : cursor_prog = [ACursorArm; ACursorWrite].
+Proof. reflexivity. Qed.
+
+(* the request flag against the wire, at every point of a schedule that follows the program:
+   outside the prologue they agree; between the two statements the flag is already armed *)
+Definition sched_inv (wire : bool) (todo : list appact) (s : vxstate) : Prop :=
+  (todo = [] /\ req_cursor s = wire) \/ (todo = [ACursorWrite] /\ wire = false /\ req_cursor s = true).
+
+Lemma sched_item s it wire todo : wf it -> live s -> sched_inv wire todo s ->
+  (negb (is_cpr it) || wire || is_nil todo) = true ->
+  exists s1 es1, handle dec b64 s it = Ok s1 es1 /\ live s1 /\
+    sched_inv (wire && negb (is_cpr it)) todo s1 /\
+    (let '(ue, p', _) := spec_item dec (paste s) wire it in user_events es1 = ue /\ paste s1 = p') /\
+    snd (spec_item dec (paste s) wire it) = wire && negb (is_cpr it) /\
+    (cursors_of es1, w_cursor s1) = answer_spec wire (w_cursor s) it.
+Proof.
+  intros Hwf Hl Hinv Hg.
+  pose proof (handle_spec dec b64 s it Hwf Hl) as H. unfold spec_ok in H.
+  destruct Hinv as [[Ht Hr]|(Ht & Hw & Hr)].
+  - rewrite Hr in H. pose proof (spec_item_req (paste s) wire it) as H3.
+    destruct (spec_item dec (paste s) wire it) as [[ue p'] r'] eqn:Es. cbn [snd] in H3.
+    destruct H as (s1 & es1 & E1 & Hl1 & Hu1 & Hp1 & Hr1).
+    exists s1, es1. split; [exact E1|]. split; [exact Hl1|]. split; [|split; [split; assumption|split; [exact H3|]]].
+    + left. split; [exact Ht|]. rewrite Hr1. exact H3.
+    + rewrite <- Hr. exact (handle_answers s it s1 es1 Hwf E1).
+  - subst wire todo. cbn [orb is_nil] in Hg. rewrite orb_false_r in Hg.
+    assert (Hc : is_cpr it = false) by (destruct (is_cpr it); [discriminate|reflexivity]).
+    rewrite Hr in H. rewrite (spec_item_noncpr (paste s) true false it Hc) in H.
+    pose proof (spec_item_req (paste s) false it) as H3.
+    destruct (spec_item dec (paste s) false it) as [[ue p'] r'] eqn:Es.
+    destruct H as (s1 & es1 & E1 & Hl1 & Hu1 & Hp1 & Hr1).
+    exists s1, es1. split; [exact E1|]. split; [exact Hl1|]. split; [|split; [split; assumption|split; [exact H3|]]].
+    + right. repeat split; assumption.
+    + rewrite (handle_answers s it s1 es1 Hwf E1). unfold answer_spec. rewrite Hc. reflexivity.
+Qed.
+
+Theorem sched_spec l : forall s wire todo,
+  sched_ok cursor_prog wire todo l = true -> live s -> sched_inv wire todo s ->
+  exists s' es, run_steps dec b64 s l = Ok s' es /\ live s' /\
+    user_events es = spec_wire dec (paste s) wire l /\
+    cursors_of es = spec_answers wire (w_cursor s) l.
+Proof.
+  rewrite cursor_prog_order.
+  induction l as [|x t IH]; intros s wire todo Hok Hl Hinv.
+  - exists s, []. repeat split; assumption.
+  - destruct x as [it|a].
+    + assert (Hgen : wf_item it && (negb (is_cpr it) || wire || is_nil todo) &&
+                       sched_ok [ACursorArm; ACursorWrite] (wire && negb (is_cpr it)) todo t = true ->
+               exists s' es, bind (handle dec b64 s it) (fun s1 => run_steps dec b64 s1 t) = Ok s' es /\ live s' /\
+                 user_events es = (let '(es0, p', w') := spec_item dec (paste s) wire it in es0 ++ spec_wire dec p' w' t) /\
+                 cursors_of es =
+                   (if is_cpr it && wire then
+                      match cpr_answer it with
+                      | Some rc => if w_cursor s then rc :: spec_answers false false t else spec_answers false false t
+                      | None => spec_answers false (w_cursor s) t
+                      end
+                    else spec_answers wire (w_cursor s) t)).
+      { intros Hok'. apply andb_prop in Hok' as [Hok' Ht]. apply andb_prop in Hok' as [Hwf Hg].
+        destruct (sched_item s it wire todo Hwf Hl Hinv Hg) as (s1 & es1 & E1 & Hl1 & Hinv1 & Hue & H3 & Hans).
+        destruct (IH s1 _ _ Ht Hl1 Hinv1) as (s2 & es2 & E2 & Hl2 & Hu2 & Hc2).
+        exists s2, (es1 ++ es2). rewrite E1. cbn [bind]. rewrite E2. split; [reflexivity|]. split; [exact Hl2|].
+        destruct (spec_item dec (paste s) wire it) as [[ue p'] r'] eqn:Es. cbn [snd] in H3. destruct Hue as [Hu1 Hp1].
+        split.
+        - rewrite user_events_app, Hu1, Hu2, Hp1, H3. reflexivity.
+        - rewrite cursors_of_app, Hc2. unfold answer_spec in Hans.
+          destruct (is_cpr it && wire) eqn:Ecw.
+          + apply andb_prop in Ecw as [Ec Ew]. rewrite Ec, Ew in *. cbn [andb negb] in *.
+            destruct (cpr_answer it) as [rc|].
+            * destruct (w_cursor s); injection Hans as -> ->; reflexivity.
+            * injection Hans as -> ->. reflexivity.
+          + injection Hans as -> ->. cbn [app].
+            destruct (is_cpr it); [destruct wire; [discriminate|reflexivity]|rewrite andb_true_r; reflexivity]. }
+      destruct it; try (apply Hgen; exact Hok).
+      exists s, []. repeat split; assumption.
+    + assert (Hp : paste (app_step s a) = paste s) by (destruct a as [| | | | | | | | |q| |]; reflexivity).
+      cbn [run_steps spec_wire spec_answers].
+      assert (Hstep : live (app_step s a) /\
+                exists todo', sched_ok [ACursorArm; ACursorWrite] (wire_app wire a) todo' t = true /\
+                  sched_inv (wire_app wire a) todo' (app_step s a) /\
+                  w_cursor (app_step s a) = wait_app (w_cursor s) a).
+      { destruct Hinv as [[Ht Hr]|(Ht & Hw & Hr)]; subst todo;
+          destruct a as [| | | | | | | | |[n|]| |]; cbn in Hok |- *; try discriminate;
+          (split; [first [exact Hl | reflexivity]|]).
+        all: try (eexists; split; [exact Hok|]; split; [|reflexivity]; first [left; split; [reflexivity|assumption] | right; repeat split; assumption]).
+        all: try (apply andb_prop in Hok as [Hw Hok]; apply Bool.negb_true_iff in Hw; subst wire).
+        all: try (eexists; split; [exact Hok|]; split; [|reflexivity]; first [left; split; reflexivity | right; repeat split; reflexivity]).
+      }
+      destruct Hstep as (Hl1 & todo' & Ht & Hinv1 & Hw1).
+      destruct (IH (app_step s a) _ _ Ht Hl1 Hinv1) as (s2 & es2 & E2 & Hl2 & Hu2 & Hc2).
+      exists s2, es2. split; [exact E2|]. split; [exact Hl2|]. rewrite Hu2, Hc2, Hp, Hw1. split; reflexivity.
+Qed.
+
+(* a report that answers a written query is consumed, never surfaces as a key, and reaches the
+   caller, in every schedule that follows the program *)
+Theorem solicited_cursor_reply l s :
+  sched_ok cursor_prog (req_cursor s) [] l = true -> live s ->
+  exists s' es, run_steps dec b64 s l = Ok s' es /\ live s' /\
+    user_events es = spec_wire dec (paste s) (req_cursor s) l /\
+    cursors_of es = spec_answers (req_cursor s) (w_cursor s) l.
+Proof. intros Hok Hl. apply (sched_spec l s (req_cursor s) [] Hok Hl). left; split; reflexivity. Qed.
+End CursorRequest.
+
+(* the statement really depends on the order: with the two statements of the prologue swapped
+   (query written first) the schedule "reply handled before the flag is armed" is admissible,
+   the report surfaces as a key and the caller gets nothing *)
+Definition swapped_prog : list appact := [ACursorWrite; ACursorArm].
+Definition fast_reply_schedule : list step :=
+  [SApp ACursorWrite; SItem (ICsi [] [[5]; [7]] 82); SApp ACursorArm].
+Lemma order_matters dec b64 :
+  sched_ok swapped_prog false [] fast_reply_schedule = true /\
+  spec_wire dec false false fast_reply_schedule = [] /\
+  spec_answers false false fast_reply_schedule = [(5, 7)] /\
+  exists s' , run_steps dec b64 vx0 fast_reply_schedule = Ok s' [Ev (EKey (dec (ICsi [] [[5]; [7]] 82)))].
+Proof. repeat split. eexists. reflexivity. Qed.
+
+(* the time-out branch of CursorPosition's select disarms the request, the other branch receives
+   the answer; the callers without a flag write their query before they wait for the reply *)
+Lemma request_bodies :
+  cursor_position_select = [[PStore 0 false]; [PRecv 0]] /\
+  (exists q, clipboard_pop_body = [PWrite q; PRecv 1]) /\
+  (exists q, query_color_body = [PWrite q; PRecv 2]) /\
+  (exists q, query_foreground_body = [PWrite q; PRecv 3]) /\
+  (exists q, query_background_body = [PWrite q; PRecv 4]).
+Proof. repeat split; eexists; reflexivity. Qed.
